@@ -315,6 +315,7 @@ type LState struct {
 	yieldTop     int // registry top + 1 that a resumed yield with a fixed number of results must see (0: all values)
 	mainLoop     func(*LState, *callFrame)
 	ctx          context.Context
+	ctxParent    context.Context // the context ctx was derived from by NewThread (nil: ctx was attached by the host)
 	ctxCancelFn  context.CancelFunc
 }
 
